@@ -56,11 +56,20 @@ class PartialFireflyPoolEncoder(json.JSONEncoder):
           'trial': o.trial,
       }
     elif isinstance(o, vz.Trial):
+      # Infeasible trials (kept in the pool when `infeasible_force_factor` is
+      # positive) are not standardized: they may lack the objective metric or
+      # have no measurement at all.
+      objective = None
+      if not o.infeasible or (
+          o.final_measurement is not None
+          and eagle_strategy_utils.OBJECTIVE_NAME in o.final_measurement.metrics
+      ):
+        objective = o.final_measurement.metrics[
+            eagle_strategy_utils.OBJECTIVE_NAME
+        ].value
       return {
           'parameters': o.parameters.as_dict(),
-          'objective': o.final_measurement.metrics[
-              eagle_strategy_utils.OBJECTIVE_NAME
-          ].value,
+          'objective': objective,
           'infeasibility_reason': o.infeasibility_reason,
       }
     else:
@@ -95,10 +104,14 @@ class FireflyPoolDecoder:
     # Restore FireFly objects in the pool.
     for id_, fly in obj_dict['_pool'].items():
       trial = vz.Trial(parameters=fly['trial']['parameters'])
+      if fly['trial'][OBJECTIVE_NAME] is None:
+        measurement = vz.Measurement()
+      else:
+        measurement = vz.Measurement(
+            metrics={OBJECTIVE_NAME: fly['trial'][OBJECTIVE_NAME]}
+        )
       trial.complete(
-          measurement=vz.Measurement(
-              metrics={'objective': fly['trial'][OBJECTIVE_NAME]}
-          ),
+          measurement=measurement,
           infeasibility_reason=fly['trial']['infeasibility_reason'],
       )
       restored_pool[int(id_)] = Firefly(
@@ -114,6 +127,9 @@ class FireflyPoolDecoder:
     )
     # pylint: disable=protected-access
     restored_firefly_pool._pool = restored_pool
+    restored_firefly_pool._infeasible_count = sum(
+        fly.trial.infeasible for fly in restored_pool.values()
+    )
     restored_firefly_pool._last_id = int(obj_dict['_last_id'])
     restored_firefly_pool._max_fly_id = int(obj_dict['_max_fly_id'])
     return restored_firefly_pool
